@@ -11,11 +11,12 @@ Record case := mk_case
   ; k_r : N                      (* read chunk of the scripted socket (<= LW_BUFFER_SIZE) *)
   ; k_h431 : N                   (* length of the 431 response the harness expects *)
   ; k_fix21 : bool               (* the tree under test carries the F21 repair *)
+  ; k_fix28 : bool               (* ... and its generalisation to every closed decode gate *)
   ; k_items : list item
   ; k_handlers : list (list hact)
   ; k_rounds : list round }.
 
-Definition cfg_of (k : case) : cfg := std_cfg (k_wbs k) (k_r k) (k_h431 k) (k_fix21 k).
+Definition cfg_of (k : case) : cfg := std_cfg2 (k_wbs k) (k_r k) (k_h431 k) (k_fix21 k) (k_fix28 k).
 
 (* compact notation for long repetitive scripts *)
 Definition repN {A} (n : N) (x : A) : list A := repeat x (N.to_nat n).
